@@ -92,9 +92,39 @@ impl World {
         let mut new_refs = Vec::new();
         for node in nodes {
             let label = node["label"].as_i64().unwrap();
-            let ib = InstanceBuilder::new(CLASSES[(label.rem_euclid(3)) as usize])
-                .with_name(format!("L{}", label))
-                .with_property("Value", Variant::Int32(label as i32));
+            // the same instance description through every construction path of the builder API
+            // (new / empty + with_class / set_class, with_name / set_name, with_property / with_properties /
+            // add_properties, with_referent), chosen by the label so that TLC's histories vary it too
+            let class = CLASSES[(label.rem_euclid(3)) as usize];
+            let name = format!("L{}", label);
+            let value = Variant::Int32(label as i32);
+            let mut ib = match label.rem_euclid(5) {
+                0 => InstanceBuilder::new(class).with_name(name).with_property("Value", value),
+                1 => InstanceBuilder::empty().with_class(class).with_name(name).with_properties([("Value", value)]),
+                2 => {
+                    let mut b = InstanceBuilder::new("Temporary");
+                    b.set_class(class);
+                    b.set_name(name);
+                    b.add_properties([("Value", value)]);
+                    b
+                }
+                3 => InstanceBuilder::with_property_capacity(class, 4).with_name(name).with_property("Value", Variant::Int32(-1)).with_property("Value", value),
+                _ => {
+                    let mut b = InstanceBuilder::new(class).with_name(name);
+                    b.add_property("Value", value);
+                    b
+                }
+            };
+            if label.rem_euclid(4) == 1 {
+                let chosen = Ref::new();
+                ib = ib.with_referent(chosen);
+                if ib.referent() != chosen {
+                    ib = ib.with_name("referent-not-taken"); // shows up as a wrong label
+                }
+            }
+            if !ib.has_property("Value") || ib.has_property("NoSuchProperty") {
+                ib = ib.with_name("has_property-wrong");
+            }
             new_refs.push(ib.referent());
             builders.push(Some(ib));
         }
@@ -129,10 +159,23 @@ impl World {
             let pi = nodes[i]["pi"].as_i64().unwrap() as usize;
             children[pi - 1].push(i);
         }
+        // children are attached through with_child / add_child / with_children / add_children in turn
         fn assemble(i: usize, b: &mut Vec<Option<InstanceBuilder>>, ch: &Vec<Vec<usize>>) -> InstanceBuilder {
             let mut ib = b[i].take().unwrap();
-            for &c in &ch[i] {
-                ib.add_child(assemble(c, b, ch));
+            let kids: Vec<InstanceBuilder> = ch[i].iter().map(|&c| assemble(c, b, ch)).collect();
+            match (i + kids.len()) % 4 {
+                0 => {
+                    for k in kids {
+                        ib.add_child(k);
+                    }
+                }
+                1 => {
+                    for k in kids {
+                        ib = ib.with_child(k);
+                    }
+                }
+                2 => ib = ib.with_children(kids),
+                _ => ib.add_children(kids),
             }
             ib
         }
@@ -196,7 +239,13 @@ impl World {
                     }
                 } else if pn == "UniqueId" {
                     match pv {
-                        Variant::UniqueId(id) => uid[k] = self.token(*id),
+                        Variant::UniqueId(id) => {
+                            uid[k] = self.token(*id);
+                            // the accessor must agree with the property
+                            if self.doms[d].as_ref().unwrap().get_unique_id(r) != Some(*id) {
+                                uid[k] = -7;
+                            }
+                        }
                         _ => uid[k] = -7,
                     }
                 } else if let Some(s) = pn.strip_prefix("RefProp") {
@@ -342,7 +391,10 @@ impl World {
                     let v = self.real(op["v"].as_i64().unwrap());
                     let mut done = false;
                     for dom in self.doms.iter_mut().flatten() {
-                        if let Some(inst) = dom.get_by_ref_mut(r) {
+                        if dom.root_ref() == r {
+                            dom.root_mut().properties.insert(format!("RefProp{}", s).into(), Variant::Ref(v));
+                            done = true;
+                        } else if let Some(inst) = dom.get_by_ref_mut(r) {
                             inst.properties
                                 .insert(format!("RefProp{}", s).into(), Variant::Ref(v));
                             done = true;
